@@ -23,7 +23,7 @@
 EXTENDS Naturals, Sequences, FiniteSets, TLC
 
 CONSTANTS
-    Table,      \* "cert" | "sshsig" | "verify" : which table this run enumerates
+    Table,      \* "cert" | "sshsig" | "verify" | "ident" : which table this run enumerates
     Variant,    \* "code" = faithful; anything else = a seeded-wrong machine
     TwoLines,   \* sshsig: also enumerate two-line allowed-signers files
     Emit        \* TRUE: print one row per finished case
@@ -84,8 +84,8 @@ CertCheck(s, k) ==        \* TRUE = this stage lets the certificate through
 
 Line == [pat : {"match", "nomatch", "neg"},    \* principals pattern list vs wanted principal
          ns  : {"absent", "match", "nomatch"}, \* namespaces= option vs signature namespace
-         va  : {"absent", "set"},              \* valid-after=a
-         vb  : {"absent", "set"},              \* valid-before=b
+         va  : {"absent", "set", "epoch"},     \* valid-after=a / valid-after=0 (1970)
+         vb  : {"absent", "set", "epoch"},     \* valid-before=b / valid-before=0 (1970)
          ca  : BOOLEAN,                        \* cert-authority
          key : {"signer", "ca", "other"}]      \* key on the line
 
@@ -116,6 +116,7 @@ LineOK(l, n) ==
     /\ (IF Variant = "ignore_namespace" THEN TRUE ELSE l.ns # "nomatch")
     /\ (l.va = "set" => NotBefore(n))
     /\ (l.vb = "set" => NotAfter(n))
+    /\ (IF Variant = "before_truthy" THEN TRUE ELSE l.vb # "epoch")  \* now >= 0 always
 
 IsCert(k) == k.signer # "key"
 
@@ -125,6 +126,7 @@ SshsigRule(k) ==
           LET l == k.lines[i] IN
           /\ l.pat = "match" /\ l.ns # "nomatch"
           /\ (l.va = "set" => NotBefore(k.now)) /\ (l.vb = "set" => NotAfter(k.now))
+          /\ l.vb # "epoch"          \* valid-before=0: never valid (valid-after=0: always)
           /\ \/ ~l.ca /\ l.key = "signer"
              \/ l.ca /\ l.key = "ca" /\ k.signer = "cert_ok"
 
@@ -140,6 +142,74 @@ CaEntryHit(k) == \E i \in DOMAIN k.lines :
     k.lines[i].ca /\ k.lines[i].key = "ca" /\ LineOK(k.lines[i], k.now)
 
 SigStages == <<"crypto", "keyentries", "caentries", "certvalid">>
+
+-----------------------------------------------------------------------------
+(* Identity table: the WANTED identity next to the certificate's principal  *)
+(* list, and the validity window as integers, through every entry point     *)
+(* that takes a principal.  Names are records [b, d]: base name and a       *)
+(* decoration (case variant, leading / trailing blank, prefix, suffix, a    *)
+(* comma, wildcard characters), so that "compare after strip / lower" is    *)
+(* expressible as a (wrong) variant.  Documented rule: None = no check;     *)
+(* otherwise exact membership unless the list is empty.                     *)
+
+Decos == {"upper", "lspace", "tspace", "prefix", "suffix", "comma", "star", "qmark"}
+NoneP == [b |-> "<none>", d |-> "plain"]      \* the caller does not care
+Empty == [b |-> "", d |-> "plain"]            \* the empty string
+Alice == [b |-> "alice", d |-> "plain"]
+Bob   == [b |-> "bob", d |-> "plain"]
+DecoAlice == {[b |-> "alice", d |-> x] : x \in Decos}
+
+Lists   == {<<>>, <<Empty>>, <<Alice>>, <<Alice, Bob>>, <<Bob>>, <<Empty, Alice>>}
+              \cup {<<n>> : n \in DecoAlice}
+Wanteds == {NoneP, Empty, Alice, Bob} \cup DecoAlice
+
+\* time points: 0 = 0, 1 = a-1, 2 = a, 3 = b-1, 4 = b, 5 = 2^64-1
+Bounds == {0, 2, 4, 5}
+
+IdentCases ==
+    \* (A) every wanted identity x every list, certificate.validate()
+    [entry : {"validate"}, ctype : {"user", "host"}, want : {"same", "any", "other"},
+     list : Lists, wanted : Wanteds, after : {2}, before : {4}, now : {2}]
+      \cup
+    \* (B) the other entry points that take a principal (never None there;
+    \*     a host key alias cannot be the empty string)
+    [entry : {"sshsig", "login"}, ctype : {"user"}, want : {"same"},
+     list : Lists, wanted : Wanteds \ {NoneP}, after : {0}, before : {5}, now : {3}]
+      \cup
+    [entry : {"hostalias"}, ctype : {"host"}, want : {"same"},
+     list : Lists, wanted : Wanteds \ {NoneP, Empty}, after : {0}, before : {5}, now : {3}]
+      \cup
+    \* (C) every validity window (including 0 and inverted ones) x every now
+    [entry : {"validate", "sshsig"}, ctype : {"user"}, want : {"same"},
+     list : {<<>>, <<Alice>>}, wanted : {Alice}, after : Bounds, before : Bounds,
+     now : 0..4]
+
+Range(s) == {s[i] : i \in DOMAIN s}
+
+IdentRule(k) ==
+    /\ k.want # "other"
+    /\ k.after <= k.now /\ k.now < k.before
+    /\ (k.wanted = NoneP \/ k.list = <<>> \/ k.wanted \in Range(k.list))
+
+Strip(n) == IF n.d \in {"lspace", "tspace"} THEN [n EXCEPT !.d = "plain"] ELSE n
+Lower(n) == IF n.d = "upper" THEN [n EXCEPT !.d = "plain"] ELSE n
+Norm(n)  == CASE Variant = "strip_compare" -> Strip(n)
+              [] Variant = "lower_compare" -> Lower(n)
+              [] OTHER -> n
+
+IdentStages == <<"vtype", "vafter", "vbefore", "vprinc">>
+
+IdentCheck(s, k) ==
+    CASE s = "vtype"   -> k.want # "other"
+      [] s = "vafter"  -> k.now >= k.after
+      [] s = "vbefore" -> IF Variant = "before_truthy" /\ k.before = 0 THEN TRUE
+                          ELSE IF Variant = "closed_before" THEN k.now <= k.before
+                          ELSE k.now < k.before
+      [] s = "vprinc"  ->
+            LET dontcare == IF Variant = "empty_is_none"
+                            THEN k.wanted \in {NoneP, Empty} ELSE k.wanted = NoneP
+            IN dontcare \/ k.list = <<>>
+               \/ Norm(k.wanted) \in {Norm(n) : n \in Range(k.list)}
 
 -----------------------------------------------------------------------------
 (* Plain signatures                                                        *)
@@ -175,14 +245,17 @@ VerStages == <<"alg", "crypto">>
 Cases == CASE Table = "cert"   -> CertCases
            [] Table = "sshsig" -> SigCases
            [] Table = "verify" -> VerCases
+           [] Table = "ident"  -> IdentCases
 
 Stages == CASE Table = "cert"   -> CertStages
             [] Table = "sshsig" -> SigStages
             [] Table = "verify" -> VerStages
+            [] Table = "ident"  -> IdentStages
 
 Rule(k) == CASE Table = "cert"   -> CertRule(k)
              [] Table = "sshsig" -> SshsigRule(k)
              [] Table = "verify" -> VerifyRule(k)
+             [] Table = "ident"  -> IdentRule(k)
 
 Init == c \in Cases /\ pc = 1 /\ res = "pending" /\ stage = "none"
 
@@ -204,6 +277,12 @@ SigStep ==
       [] s = "caentries"  -> IF CaEntryHit(c) THEN Goto(4) ELSE Reject(s)
       [] s = "certvalid"  -> IF c.signer = "cert_ok" THEN Accept ELSE Reject(s)
 
+IdentStep ==
+    LET s == IdentStages[pc] IN
+    IF IdentCheck(s, c)
+    THEN IF pc = Len(IdentStages) THEN Accept ELSE Goto(pc + 1)
+    ELSE Reject(s)
+
 VerStep ==
     LET s == VerStages[pc] IN
     CASE s = "alg"    -> IF NameAccepted(c) THEN Goto(2) ELSE Reject(s)
@@ -214,6 +293,7 @@ Next ==
     /\ CASE Table = "cert"   -> CertStep
          [] Table = "sshsig" -> SigStep
          [] Table = "verify" -> VerStep
+         [] Table = "ident"  -> IdentStep
 
 Spec == Init /\ [][Next]_vars
 
